@@ -22,6 +22,56 @@ def shape(c):
             c["res"]["ok"], c["res"].get("why", ""), k["star"] >= 0, bool(k["dstar"]), len(k["kw"]))
 
 
+def class_part(tier, scratch, V):
+    """ClassModel.tla: every hierarchy over four classes x member definitions (TLC), validated against CPython (consistency of
+    the hierarchy, method resolution order, lookup result) and replayed into the tracer through a method, a property and
+    __call__ with cooperative super() calls"""
+    md = os.path.join(scratch, "cls")
+    os.makedirs(os.path.join(md, "meta"), exist_ok=True)
+    cmd = ["java", "-XX:+UseParallelGC", "-Xss64m", "-Xmx2g", f"-DTLA-Library={vlib.SPEC}:{os.path.join(vlib.SPEC, 'mc')}", "-cp", vlib.TLA_CP,
+           "tlc2.TLC", "-workers", "1", "-metadir", os.path.join(md, "meta"), "-noGenerateSpecTE",
+           "-config", os.path.join(vlib.SPEC, "mc", "MC_ClassModel.cfg"), os.path.join(vlib.SPEC, "mc", "MC_ClassModel.tla")]
+    p = subprocess.run(cmd, capture_output=True, text=True, timeout=900, cwd=md)
+    hs = [json.loads(json.loads('"' + m.group(1) + '"')) for m in re.finditer(r'<<"CASE", "((?:[^"\\]|\\.)*)">>', p.stdout + p.stderr)]
+    if not hs:
+        V.machinery_error("ClassModel spec run failed: " + (p.stdout + p.stderr)[-400:])
+        return {}
+    hs.sort(key=lambda h: json.dumps(h, sort_keys=True))
+    cases = []
+    kinds = ("method", "property", "call")
+    for i, h in enumerate(hs):
+        for j, kind in enumerate(kinds):
+            if tier == "quick" and (i + j) % 3:
+                continue
+            cases.append(dict(h, id=len(cases), kind=kind))
+
+    def one(args):
+        j, cs = args
+        wd = os.path.join(md, f"w{j}")
+        os.makedirs(wd, exist_ok=True)
+        json.dump(cs, open(os.path.join(wd, "cases.json"), "w"))
+        env = dict(os.environ, PYTHONPATH=vlib.REPO, PYTHONHASHSEED="0")
+        q = subprocess.run([vlib.VENV_PY, os.path.join(vlib.VERIF, "harness", "pyobs_c10_classes.py"), os.path.join(wd, "cases.json"), wd,
+                            os.path.join(wd, "out.json")], env=env, capture_output=True, text=True, cwd=wd)
+        return {"error": q.stderr[-1200:]} if q.returncode != 0 else json.load(open(os.path.join(wd, "out.json")))
+
+    checked = rejected = cpy = 0
+    with cf.ThreadPoolExecutor(vlib.NCPU) as ex:
+        for r in ex.map(one, list(enumerate(vlib.shard(cases, vlib.NCPU)))):
+            if "error" in r:
+                V.machinery_error("pyobs_c10_classes: " + r["error"])
+                continue
+            checked += r["checked"]
+            rejected += r["rejected_valid"]
+            cpy += r["cpython_checked"]
+            if r["n_spec_vs_cpython"]:
+                V.machinery_error("ClassModel.tla disagrees with CPython: " + json.dumps(r["spec_vs_cpython"][:2]))
+            for f in r["tracer"]:
+                hh = "/".join("".join("ABCD"[b - 1] for b in c["bases"]) + ":" + c["def"] for c in f["h"])
+                V.violation(f"class-lookup:{f['kind']}:{f['clause']}|{hh}: CPython {f.get('cpython')!r}, tracer {f['tracer']!r}", f)
+    return {"class_hierarchies": len(hs), "class_cases_cpython_validated": cpy, "class_cases_traced": checked, "class_cases_rejected_by_tracer": rejected}
+
+
 def eval_part(tier, scratch, V):
     """constant expressions (displays with starred elements, subscripts, slices, comprehensions, chained comparisons,
     and/or/not, if-expressions, closures applied at once, isinstance, len/min/max/abs/...): PyEval.tla evaluates every
@@ -174,6 +224,7 @@ def run(tier):
                         "subclass-priority-ignored" if c["rel"] == "sub" else "other"
                     V.violation(f"operator-dispatch:{cls}|{f['desc']}: CPython {f['cpython']!r}, tracer {f['tracer']!r}", f)
         ev = eval_part(tier, scratch, V)
+        ev.update(class_part(tier, scratch, V))
     cov = {"states": len(cases), "transitions": len(cases), "operator_dispatch_cases": od_checked, "valid_code_rejected_by_tracer": rejected_valid, "traces_validated_against_impl": tr_checked, "evaluations": cp_checked + tr_checked,
            "distinct_nontrivial": len(by), "cpython_validated_pairs": cp_checked,
            "samples": [{"sig": cases[i]["sig"], "call": cases[i]["call"], "res": cases[i]["res"]} for i in sample[:: max(1, len(sample) // 3)][:3]],
@@ -183,7 +234,8 @@ def run(tier):
                    "stratified sample (every distinct signature/outcome/call shape) is traced by CoHDL with constant arguments and observed "
                    "with a pyeval probe; distinct_nontrivial = distinct shapes"}
     cov.update(ev)
-    cov["evaluations"] += ev.get("constant_expressions_cpython_validated", 0) + ev.get("constant_expressions_traced", 0)
+    cov["evaluations"] += ev.get("constant_expressions_cpython_validated", 0) + ev.get("constant_expressions_traced", 0) + \
+        ev.get("class_cases_cpython_validated", 0) + ev.get("class_cases_traced", 0)
     rc = V.finish()
     vlib.write_evidence("C10", tier, "model_checking", cov, time.time() - t0, len(V.new),
                         ["spec/CallBinding.tla transcribes Python's call-binding rules (validated against CPython on the whole enumerated space)",
